@@ -757,6 +757,22 @@ static URI_INLINE int URI_FUNC(NormalizeSyntaxEngine)(URI_TYPE(Uri) * uri,
 			URI_FUNC(PreventLeakage)(uri, doneMask, memory);
 			return URI_ERROR_MALLOC;
 		}
+
+		/* A host-less path must not begin with "//" (as in uriAddBaseUri).
+		 * The path texts are owned here, so the "." gets a block of its own */
+		walker = uri->pathHead;
+		if (!URI_FUNC(FixAmbiguity)(uri, memory)) {
+			URI_FUNC(PreventLeakage)(uri, doneMask, memory);
+			return URI_ERROR_MALLOC;
+		}
+		if ((uri->pathHead != walker) && !URI_FUNC(MakeRangeOwner)(&doneMask,
+				0, &(uri->pathHead->text), memory)) {
+			/* Take the new segment out again: its text is a constant */
+			memory->free(memory, uri->pathHead);
+			uri->pathHead = walker;
+			URI_FUNC(PreventLeakage)(uri, doneMask, memory);
+			return URI_ERROR_MALLOC;
+		}
 		URI_FUNC(FixEmptyTrailSegment)(uri, memory);
 	}
 
